@@ -240,7 +240,7 @@ func (d *DFA) SearchAtAnchored(cache *DFACache, haystack []byte, at int) int {
 	// Get ANCHORED start state (requires match to start exactly at 'at')
 	currentState := d.getStartState(cache, haystack, at, true)
 	if currentState == nil {
-		return d.nfaFallbackAnchored(haystack, at)
+		return d.nfaFallbackAnchored(cache, haystack, at)
 	}
 
 	lastMatch := -1
@@ -273,16 +273,16 @@ func (d *DFA) SearchAtAnchored(cache *DFACache, haystack []byte, at int) int {
 		case InvalidState:
 			currentState = cache.getState(sid)
 			if currentState == nil {
-				return d.nfaFallbackAnchored(haystack, at)
+				return d.nfaFallbackAnchored(cache, haystack, at)
 			}
 			nextState, err := d.determinize(cache, currentState, b)
 			if err != nil {
 				if isCacheCleared(err) {
 					// The states of the match in progress are gone with the cache, and an
 					// anchored search cannot restart from a later position: let the NFA decide.
-					return d.nfaFallbackAnchored(haystack, at)
+					return d.nfaFallbackAnchored(cache, haystack, at)
 				}
-				return d.nfaFallbackAnchored(haystack, at)
+				return d.nfaFallbackAnchored(cache, haystack, at)
 			}
 			if nextState == nil {
 				return lastMatch
@@ -359,7 +359,7 @@ func (d *DFA) searchFirstAt(cache *DFACache, haystack []byte, startPos int) int 
 
 	startState := d.getStartStateForUnanchored(cache, haystack, startPos)
 	if startState == nil {
-		return d.nfaFallback(haystack, startPos)
+		return d.nfaFallback(cache, haystack, startPos)
 	}
 
 	// With 1-byte match delay, start states are never match states.
@@ -445,7 +445,7 @@ func (d *DFA) searchFirstAt(cache *DFACache, haystack []byte, startPos int) int 
 				pos = candidate
 				newStart := d.getStartStateForUnanchored(cache, haystack, pos)
 				if newStart == nil {
-					return d.nfaFallback(haystack, startPos)
+					return d.nfaFallback(cache, haystack, startPos)
 				}
 				sid = newStart.id
 				ft = cache.flatTrans
@@ -475,11 +475,11 @@ func (d *DFA) searchFirstAt(cache *DFACache, haystack []byte, startPos int) int 
 		case InvalidState:
 			currentState := cache.getState(sid)
 			if currentState == nil {
-				return d.nfaFallback(haystack, startPos)
+				return d.nfaFallback(cache, haystack, startPos)
 			}
 			nextState, err := d.determinize(cache, currentState, haystack[pos])
 			if err != nil {
-				return d.nfaFallback(haystack, startPos)
+				return d.nfaFallback(cache, haystack, startPos)
 			}
 			if nextState == nil {
 				return lastMatch
@@ -569,7 +569,7 @@ func (d *DFA) searchEarliestMatch(cache *DFACache, haystack []byte, startPos int
 	currentState := d.getStartStateForUnanchored(cache, haystack, startPos)
 	if currentState == nil {
 		// Fallback to NFA using SearchAt to preserve absolute positions
-		start, end, matched := d.pikevm.SearchAt(haystack, startPos)
+		start, end, matched := d.fallbackVM(cache).SearchAt(haystack, startPos)
 		return matched && start >= 0 && end >= start
 	}
 
@@ -687,7 +687,7 @@ func (d *DFA) searchEarliestMatch(cache *DFACache, haystack []byte, startPos int
 					pos = candidate
 					newStart := d.getStartStateForUnanchored(cache, haystack, pos)
 					if newStart == nil {
-						start, end, matched := d.pikevm.SearchAt(haystack, startPos)
+						start, end, matched := d.fallbackVM(cache).SearchAt(haystack, startPos)
 						return matched && start >= 0 && end >= start
 					}
 					sid = newStart.id
@@ -716,7 +716,7 @@ func (d *DFA) searchEarliestMatch(cache *DFACache, haystack []byte, startPos int
 		// Try lazy acceleration detection if not yet checked
 		currentState = cache.getState(sid)
 		if currentState == nil {
-			start, end, matched := d.pikevm.SearchAt(haystack, startPos)
+			start, end, matched := d.fallbackVM(cache).SearchAt(haystack, startPos)
 			return matched && start >= 0 && end >= start
 		}
 		d.tryDetectAccelerationWithCache(currentState, cache)
@@ -757,7 +757,7 @@ func (d *DFA) searchEarliestMatch(cache *DFACache, haystack []byte, startPos int
 			// Determinize on demand
 			nextState, err := d.determinize(cache, currentState, b)
 			if err != nil {
-				start, end, matched := d.pikevm.SearchAt(haystack, startPos)
+				start, end, matched := d.fallbackVM(cache).SearchAt(haystack, startPos)
 				return matched && start >= 0 && end >= start
 			}
 			if nextState == nil {
@@ -799,7 +799,7 @@ func (d *DFA) searchEarliestMatch(cache *DFACache, haystack []byte, startPos int
 		pos = candidate
 		newStart := d.getStartStateForUnanchored(cache, haystack, pos)
 		if newStart == nil {
-			start, end, matched := d.pikevm.SearchAt(haystack, startPos)
+			start, end, matched := d.fallbackVM(cache).SearchAt(haystack, startPos)
 			return matched && start >= 0 && end >= start
 		}
 		sid = newStart.id
@@ -832,7 +832,7 @@ func (d *DFA) searchEarliestMatchAnchored(cache *DFACache, haystack []byte, star
 	currentState := d.getStartState(cache, haystack, startPos, true)
 	if currentState == nil {
 		// Fallback to NFA with anchored search
-		start, end, matched := d.pikevm.SearchAt(haystack, startPos)
+		start, end, matched := d.fallbackVM(cache).SearchAt(haystack, startPos)
 		// For anchored: match must start exactly at startPos
 		return matched && start == startPos && end >= start
 	}
@@ -867,7 +867,7 @@ func (d *DFA) searchEarliestMatchAnchored(cache *DFACache, haystack []byte, star
 		case InvalidState:
 			currentState = cache.getState(sid)
 			if currentState == nil {
-				start, end, matched := d.pikevm.SearchAt(haystack, startPos)
+				start, end, matched := d.fallbackVM(cache).SearchAt(haystack, startPos)
 				return matched && start == startPos && end >= start
 			}
 			nextState, err := d.determinize(cache, currentState, b)
@@ -875,7 +875,7 @@ func (d *DFA) searchEarliestMatchAnchored(cache *DFACache, haystack []byte, star
 				if isCacheCleared(err) {
 					currentState = d.getStartState(cache, haystack, pos, true)
 					if currentState == nil {
-						start, end, matched := d.pikevm.SearchAt(haystack, startPos)
+						start, end, matched := d.fallbackVM(cache).SearchAt(haystack, startPos)
 						return matched && start == startPos && end >= start
 					}
 					sid = currentState.id
@@ -884,7 +884,7 @@ func (d *DFA) searchEarliestMatchAnchored(cache *DFACache, haystack []byte, star
 					pos--
 					continue
 				}
-				start, end, matched := d.pikevm.SearchAt(haystack, startPos)
+				start, end, matched := d.fallbackVM(cache).SearchAt(haystack, startPos)
 				return matched && start == startPos && end >= start
 			}
 			if nextState == nil {
@@ -929,7 +929,7 @@ func (d *DFA) findWithPrefilterAt(cache *DFACache, haystack []byte, startAt int)
 	// Get start state based on look-behind context at candidate position
 	currentState := d.getStartStateForUnanchored(cache, haystack, pos)
 	if currentState == nil {
-		return d.nfaFallback(haystack, 0)
+		return d.nfaFallback(cache, haystack, 0)
 	}
 
 	// Track last match position for leftmost-longest semantics
@@ -951,7 +951,7 @@ func (d *DFA) findWithPrefilterAt(cache *DFACache, haystack []byte, startAt int)
 				pos = candidate
 				newStart := d.getStartStateForUnanchored(cache, haystack, pos)
 				if newStart == nil {
-					return d.nfaFallback(haystack, 0)
+					return d.nfaFallback(cache, haystack, 0)
 				}
 				sid = newStart.id
 				ft = cache.flatTrans
@@ -980,21 +980,21 @@ func (d *DFA) findWithPrefilterAt(cache *DFACache, haystack []byte, startAt int)
 		case InvalidState:
 			currentState = cache.getState(sid)
 			if currentState == nil {
-				return d.nfaFallback(haystack, 0)
+				return d.nfaFallback(cache, haystack, 0)
 			}
 			nextState, err := d.determinize(cache, currentState, haystack[pos])
 			if err != nil {
 				if isCacheCleared(err) {
 					newStart := d.getStartStateForUnanchored(cache, haystack, pos)
 					if newStart == nil {
-						return d.nfaFallback(haystack, 0)
+						return d.nfaFallback(cache, haystack, 0)
 					}
 					sid = newStart.id
 					ft = cache.flatTrans
 					ftLen = len(ft)
 					continue
 				}
-				return d.nfaFallback(haystack, 0)
+				return d.nfaFallback(cache, haystack, 0)
 			}
 			if nextState == nil {
 				// Dead state — prefilter skip
@@ -1009,7 +1009,7 @@ func (d *DFA) findWithPrefilterAt(cache *DFACache, haystack []byte, startAt int)
 				pos = candidate
 				newStart := d.getStartStateForUnanchored(cache, haystack, pos)
 				if newStart == nil {
-					return d.nfaFallback(haystack, 0)
+					return d.nfaFallback(cache, haystack, 0)
 				}
 				sid = newStart.id
 				ft = cache.flatTrans
@@ -1033,7 +1033,7 @@ func (d *DFA) findWithPrefilterAt(cache *DFACache, haystack []byte, startAt int)
 			pos = candidate
 			newStart := d.getStartStateForUnanchored(cache, haystack, pos)
 			if newStart == nil {
-				return d.nfaFallback(haystack, 0)
+				return d.nfaFallback(cache, haystack, 0)
 			}
 			sid = newStart.id
 			ft = cache.flatTrans
@@ -1108,7 +1108,7 @@ func (d *DFA) searchAt(cache *DFACache, haystack []byte, startPos int) int { //n
 	// Get appropriate start state based on look-behind context
 	currentState := d.getStartStateForUnanchored(cache, haystack, startPos)
 	if currentState == nil {
-		return d.nfaFallback(haystack, startPos)
+		return d.nfaFallback(cache, haystack, startPos)
 	}
 
 	// Track last match position for leftmost-longest semantics.
@@ -1213,7 +1213,7 @@ func (d *DFA) searchAt(cache *DFACache, haystack []byte, startPos int) int { //n
 					pos = candidate
 					newStart := d.getStartStateForUnanchored(cache, haystack, pos)
 					if newStart == nil {
-						return d.nfaFallback(haystack, startPos)
+						return d.nfaFallback(cache, haystack, startPos)
 					}
 					sid = newStart.id
 					ft = cache.flatTrans
@@ -1242,7 +1242,7 @@ func (d *DFA) searchAt(cache *DFACache, haystack []byte, startPos int) int { //n
 		// Resolve State for slow path (acceleration, word boundary, determinize).
 		currentState = cache.getState(sid)
 		if currentState == nil {
-			return d.nfaFallback(haystack, startPos)
+			return d.nfaFallback(cache, haystack, startPos)
 		}
 		d.tryDetectAccelerationWithCache(currentState, cache)
 
@@ -1275,7 +1275,7 @@ func (d *DFA) searchAt(cache *DFACache, haystack []byte, startPos int) int { //n
 		case InvalidState:
 			nextState, err := d.determinize(cache, currentState, b)
 			if err != nil {
-				return d.nfaFallback(haystack, startPos)
+				return d.nfaFallback(cache, haystack, startPos)
 			}
 			if nextState == nil {
 				return lastMatch
@@ -1619,12 +1619,23 @@ func (d *DFA) getStartStateForUnanchored(cache *DFACache, haystack []byte, pos i
 	return d.getStartState(cache, haystack, pos, false)
 }
 
+// fallbackVM returns the PikeVM used for NFA fallback in searches that run on cache.
+// d.pikevm is only the template: a PikeVM mutates its internal state while searching
+// and the DFA is shared by all goroutines, so every DFACache (one per goroutine)
+// lazily gets a private fork of it.
+func (d *DFA) fallbackVM(cache *DFACache) *nfa.PikeVM {
+	if cache.pikevm == nil {
+		cache.pikevm = d.pikevm.Fork()
+	}
+	return cache.pikevm
+}
+
 // nfaFallback executes the NFA (PikeVM) when DFA gives up.
 // This ensures correctness even when cache is full or pattern is too complex.
-func (d *DFA) nfaFallback(haystack []byte, startPos int) int {
+func (d *DFA) nfaFallback(cache *DFACache, haystack []byte, startPos int) int {
 	// Search from startPos to end using SearchAt to preserve absolute positions
 	// This is critical for anchor handling (^ should only match at position 0)
-	_, end, matched := d.pikevm.SearchAt(haystack, startPos)
+	_, end, matched := d.fallbackVM(cache).SearchAt(haystack, startPos)
 	if !matched {
 		return -1
 	}
@@ -1636,8 +1647,8 @@ func (d *DFA) nfaFallback(haystack []byte, startPos int) int {
 // nfaFallbackAnchored is nfaFallback for anchored searches: the match must start at
 // startPos. The leftmost match starts at startPos exactly when an anchored match exists
 // there, and then both have the same (leftmost-first) end.
-func (d *DFA) nfaFallbackAnchored(haystack []byte, startPos int) int {
-	start, end, matched := d.pikevm.SearchAt(haystack, startPos)
+func (d *DFA) nfaFallbackAnchored(cache *DFACache, haystack []byte, startPos int) int {
+	start, end, matched := d.fallbackVM(cache).SearchAt(haystack, startPos)
 	if !matched || start != startPos {
 		return -1
 	}
@@ -1654,7 +1665,7 @@ func (d *DFA) matchesEmpty(cache *DFACache) bool {
 	}
 
 	// Fall back to NFA for empty match check (handles word boundaries, etc.)
-	start, end, matched := d.pikevm.Search([]byte{})
+	start, end, matched := d.fallbackVM(cache).Search([]byte{})
 	return matched && start == 0 && end == 0
 }
 
@@ -1786,7 +1797,7 @@ func (d *DFA) SearchReverse(cache *DFACache, haystack []byte, start, end int) in
 	// Get start state for reverse search
 	currentState := d.getStartStateForReverse(cache, haystack, end)
 	if currentState == nil {
-		return d.nfaFallbackReverse(haystack, start, end)
+		return d.nfaFallbackReverse(cache, haystack, start, end)
 	}
 
 	lastMatch := -1
@@ -1880,21 +1891,21 @@ func (d *DFA) SearchReverse(cache *DFACache, haystack []byte, start, end int) in
 		case InvalidState:
 			currentState = cache.getState(sid)
 			if currentState == nil {
-				return d.nfaFallbackReverse(haystack, start, end)
+				return d.nfaFallbackReverse(cache, haystack, start, end)
 			}
 			nextState, err := d.determinize(cache, currentState, b)
 			if err != nil {
 				if isCacheCleared(err) {
 					currentState = d.getStartStateForReverse(cache, haystack, at+1)
 					if currentState == nil {
-						return d.nfaFallbackReverse(haystack, start, end)
+						return d.nfaFallbackReverse(cache, haystack, start, end)
 					}
 					sid = currentState.id
 					ft = cache.flatTrans
 					ftLen = len(ft)
 					continue
 				}
-				return d.nfaFallbackReverse(haystack, start, end)
+				return d.nfaFallbackReverse(cache, haystack, start, end)
 			}
 			if nextState == nil {
 				return lastMatch
@@ -1963,7 +1974,7 @@ func (d *DFA) SearchReverseLimited(cache *DFACache, haystack []byte, start, end,
 
 	currentState := d.getStartStateForReverse(cache, haystack, end)
 	if currentState == nil {
-		return d.nfaFallbackReverse(haystack, start, end)
+		return d.nfaFallbackReverse(cache, haystack, start, end)
 	}
 
 	lastMatch := -1
@@ -1996,14 +2007,14 @@ func (d *DFA) SearchReverseLimited(cache *DFACache, haystack []byte, start, end,
 		case InvalidState:
 			currentState = cache.getState(sid)
 			if currentState == nil {
-				return d.nfaFallbackReverse(haystack, start, end)
+				return d.nfaFallbackReverse(cache, haystack, start, end)
 			}
 			nextState, err := d.determinize(cache, currentState, b)
 			if err != nil {
 				if isCacheCleared(err) {
 					currentState = d.getStartStateForReverse(cache, haystack, at+1)
 					if currentState == nil {
-						return d.nfaFallbackReverse(haystack, start, end)
+						return d.nfaFallbackReverse(cache, haystack, start, end)
 					}
 					sid = currentState.id
 					ft = cache.flatTrans
@@ -2011,7 +2022,7 @@ func (d *DFA) SearchReverseLimited(cache *DFACache, haystack []byte, start, end,
 					at++ // Will be decremented by for-loop
 					continue
 				}
-				return d.nfaFallbackReverse(haystack, start, end)
+				return d.nfaFallbackReverse(cache, haystack, start, end)
 			}
 			if nextState == nil {
 				return lastMatch
@@ -2057,7 +2068,7 @@ func (d *DFA) IsMatchReverse(cache *DFACache, haystack []byte, start, end int) b
 
 	currentState := d.getStartStateForReverse(cache, haystack, end)
 	if currentState == nil {
-		_, _, matched := d.pikevm.Search(haystack[start:end])
+		_, _, matched := d.fallbackVM(cache).Search(haystack[start:end])
 		return matched
 	}
 
@@ -2085,7 +2096,7 @@ func (d *DFA) IsMatchReverse(cache *DFACache, haystack []byte, start, end int) b
 		case InvalidState:
 			currentState = cache.getState(sid)
 			if currentState == nil {
-				_, _, matched := d.pikevm.Search(haystack[start:end])
+				_, _, matched := d.fallbackVM(cache).Search(haystack[start:end])
 				return matched
 			}
 			nextState, err := d.determinize(cache, currentState, b)
@@ -2093,7 +2104,7 @@ func (d *DFA) IsMatchReverse(cache *DFACache, haystack []byte, start, end int) b
 				if isCacheCleared(err) {
 					currentState = d.getStartStateForReverse(cache, haystack, at+1)
 					if currentState == nil {
-						_, _, matched := d.pikevm.Search(haystack[start:end])
+						_, _, matched := d.fallbackVM(cache).Search(haystack[start:end])
 						return matched
 					}
 					sid = currentState.id
@@ -2102,7 +2113,7 @@ func (d *DFA) IsMatchReverse(cache *DFACache, haystack []byte, start, end int) b
 					at++ // Will be decremented by for-loop
 					continue
 				}
-				_, _, matched := d.pikevm.Search(haystack[start:end])
+				_, _, matched := d.fallbackVM(cache).Search(haystack[start:end])
 				return matched
 			}
 			if nextState == nil {
@@ -2170,9 +2181,9 @@ func (d *DFA) getStartStateForReverse(cache *DFACache, haystack []byte, end int)
 }
 
 // nfaFallbackReverse handles NFA fallback for reverse search.
-func (d *DFA) nfaFallbackReverse(haystack []byte, start, end int) int {
+func (d *DFA) nfaFallbackReverse(cache *DFACache, haystack []byte, start, end int) int {
 	// For reverse fallback, we need to search the region and find match start
-	matchStart, _, matched := d.pikevm.Search(haystack[start:end])
+	matchStart, _, matched := d.fallbackVM(cache).Search(haystack[start:end])
 	if !matched {
 		return -1
 	}
